@@ -4,6 +4,7 @@ import TypstyleModel.Proofs.CarriesCall
 import TypstyleModel.Proofs.CarriesRaw
 import TypstyleModel.Proofs.CarriesDot
 import TypstyleModel.Proofs.CarriesMath
+import TypstyleModel.Proofs.CarriesImport
 /-! The knot (route M): **for every tree of the covered fragment, the printed family carries exactly
 what the tree prescribes** — code tokens, comments, prose, literals and verbatim text — with no
 per-case certificate: by induction over the fuel of the knot, using the per-construct theorems.
@@ -178,6 +179,16 @@ def rowShapeB (cs : List ANode) : Bool :=
   !((cs.head?.map (·.kind == .leftParen)).getD false) &&
   cs.all (fun x => isExpr x || isCommentKind x.kind || isIgnorable x)
 
+/-- Shape of an import statement: the flattened item list holds items, comments and separators only, and
+the items are already in the order the printer would give them (or are not sorted at all). -/
+def importShapeB (cs : List ANode) : Bool :=
+  (importFlattened cs).all (fun x => isImportItem x || isCommentKind x.kind || isIgnorable x) &&
+  (sortedB importSortKey ((importFlattened cs).filter isImportItem) || !importSortable (importFlattened cs))
+
+def Kind.isImportPart : Kind → Bool
+  | .importItemPath | .renamedImportItem | .importItems => true
+  | _ => false
+
 def Kind.isMathFlow : Kind → Bool
   | .mathAttach | .mathRoot | .mathFrac => true
   | _ => false
@@ -188,7 +199,7 @@ def inFrag : ANode → Bool
   | .leaf k t a => ANode.tokensAreLeaves (.leaf k t a) && (!k.isExpr || k.isFragLeaf || (k == .parbreak && !a.disabled) || k == .none_ || k == .auto_) && (!k.isInnerKind || ((k == .markup || k == .code) && t == ""))
   | .inner k cs _ =>
     ((k.isFragFlow || k.isFragElem || (k.isFragList && listChildrenOK k cs) || k == .code ||
-      ((k.isFragWrap || k == .markup || k == .args || k == .funcCall || k == .params || k == .destructuring || k == .raw || k == .ref) && listChildrenOK k cs) || k.isFragItem || k == .setRule || k == .closure || k == .forLoop || (k == .binary && binChildrenOK cs) || (k == .fieldAccess && dotChildrenOK cs)) || (k == .equation && eqShapeB cs)) &&
+      ((k.isFragWrap || k == .markup || k == .args || k == .funcCall || k == .params || k == .destructuring || k == .raw || k == .ref) && listChildrenOK k cs) || k.isFragItem || k == .setRule || k == .closure || k == .forLoop || (k == .binary && binChildrenOK cs) || (k == .fieldAccess && dotChildrenOK cs) || k.isImportPart || (k == .moduleImport && importShapeB cs)) || (k == .equation && eqShapeB cs)) &&
       (if k == .equation then inFragEq cs else inFragL cs)
 def inFragL : List ANode → Bool
   | [] => true
@@ -232,20 +243,20 @@ theorem inFragM_inner_ne (k : Kind) (cs : List ANode) (a : Attrs) (hk : k ≠ .f
 
 theorem inFrag_inner_eq (cs : List ANode) (a : Attrs) :
     inFrag (.inner .equation cs a) = (eqShapeB cs && inFragEq cs) := by
-  simp (config := { decide := true }) [inFrag, Kind.isFragFlow, Kind.isFragElem, Kind.isFragList, Kind.isFragWrap, Kind.isFragItem, listChildrenOK]
+  simp (config := { decide := true }) [inFrag, Kind.isFragFlow, Kind.isFragElem, Kind.isFragList, Kind.isFragWrap, Kind.isFragItem, Kind.isImportPart, listChildrenOK]
   rfl
 
 theorem inFrag_inner_ne (k : Kind) (cs : List ANode) (a : Attrs) (hk : k ≠ .equation) :
     inFrag (.inner k cs a) =
       ((k.isFragFlow || k.isFragElem || (k.isFragList && listChildrenOK k cs) || k == .code ||
-      ((k.isFragWrap || k == .markup || k == .args || k == .funcCall || k == .params || k == .destructuring || k == .raw || k == .ref) && listChildrenOK k cs) || k.isFragItem || k == .setRule || k == .closure || k == .forLoop || (k == .binary && binChildrenOK cs) || (k == .fieldAccess && dotChildrenOK cs)) && inFragL cs) := by
+      ((k.isFragWrap || k == .markup || k == .args || k == .funcCall || k == .params || k == .destructuring || k == .raw || k == .ref) && listChildrenOK k cs) || k.isFragItem || k == .setRule || k == .closure || k == .forLoop || (k == .binary && binChildrenOK cs) || (k == .fieldAccess && dotChildrenOK cs) || k.isImportPart || (k == .moduleImport && importShapeB cs)) && inFragL cs) := by
   have : (k == Kind.equation) = false := by simpa using hk
   simp only [inFrag, this, Bool.false_and, Bool.or_false, Bool.false_eq_true, ↓reduceIte]
 
 theorem fragKind_inner (k : Kind) (cs : List ANode)
     (h : (k.isFragFlow || k.isFragElem || (k.isFragList && listChildrenOK k cs) || k == .code ||
-      ((k.isFragWrap || k == .markup || k == .args || k == .funcCall || k == .params || k == .destructuring || k == .raw || k == .ref) && listChildrenOK k cs) || k.isFragItem || k == .setRule || k == .closure || k == .forLoop || (k == .binary && binChildrenOK cs) || (k == .fieldAccess && dotChildrenOK cs)) = true) : k.isInnerKind = true := by
-  cases k <;> simp_all [Kind.isFragFlow, Kind.isFragElem, Kind.isFragList, Kind.isFragWrap, Kind.isFragItem, Kind.isInnerKind]
+      ((k.isFragWrap || k == .markup || k == .args || k == .funcCall || k == .params || k == .destructuring || k == .raw || k == .ref) && listChildrenOK k cs) || k.isFragItem || k == .setRule || k == .closure || k == .forLoop || (k == .binary && binChildrenOK cs) || (k == .fieldAccess && dotChildrenOK cs) || k.isImportPart || (k == .moduleImport && importShapeB cs)) = true) : k.isInnerKind = true := by
+  cases k <;> simp_all [Kind.isFragFlow, Kind.isFragElem, Kind.isFragList, Kind.isFragWrap, Kind.isFragItem, Kind.isImportPart, Kind.isInnerKind]
 
 mutual
 theorem inFrag_lex : (n : ANode) → inFrag n = true → ANode.tokensAreLeaves n = true
@@ -435,7 +446,7 @@ theorem dotQ_frag : DotQ Q where
     rw [inFrag_inner_ne _ _ _ (by decide)] at h
     simp only [Bool.and_eq_true] at h
     have h1 := h.1
-    simp [Kind.isFragFlow, Kind.isFragElem, Kind.isFragList, Kind.isFragWrap, Kind.isFragItem] at h1
+    simp [Kind.isFragFlow, Kind.isFragElem, Kind.isFragList, Kind.isFragWrap, Kind.isFragItem, Kind.isImportPart] at h1
     exact ⟨h1, inFragL_lex cs h.2, fun c hc => inFragL_mem h.2 hc⟩
   call := by
     intro cs a h _
@@ -443,13 +454,30 @@ theorem dotQ_frag : DotQ Q where
     rw [inFrag_inner_ne _ _ _ (by decide)] at h
     simp only [Bool.and_eq_true] at h
     have h1 := h.1
-    simp [Kind.isFragFlow, Kind.isFragElem, Kind.isFragList, Kind.isFragWrap, Kind.isFragItem] at h1
+    simp [Kind.isFragFlow, Kind.isFragElem, Kind.isFragList, Kind.isFragWrap, Kind.isFragItem, Kind.isImportPart] at h1
     simp only [listChildrenOK] at h1
     rcases cs with _ | ⟨callee, _ | ⟨args, _ | ⟨c2, rest⟩⟩⟩ <;> simp only [Bool.false_eq_true] at h1
     simp only [Bool.and_eq_true, Bool.not_eq_true', beq_iff_eq] at h1
     have hqs := h.2
     simp only [inFragL, Bool.and_eq_true] at hqs
     exact ⟨callee, args, rfl, h1.1.1, h1.1.2, inFrag_lex _ hqs.1, hqs.1, hqs.2.1⟩
+
+theorem impQ_frag : ImpQ Q where
+  inner := by
+    intro x hq hi
+    unfold isImportItem at hi
+    simp only [Bool.or_eq_true, beq_iff_eq] at hi
+    cases x with
+    | leaf k t a =>
+      simp only [ANode.kind] at hi
+      rcases hi with rfl | rfl <;> simp [Q, inFrag, Kind.isInnerKind] at hq
+    | inner k ics ia =>
+      simp only [ANode.kind] at hi
+      have hne : k ≠ .equation := by rcases hi with rfl | rfl <;> decide
+      simp only [Q] at hq
+      rw [inFrag_inner_ne _ _ _ hne] at hq
+      simp only [Bool.and_eq_true] at hq
+      exact ⟨ics, ia, rfl, inFragL_lex ics hq.2, fun c hc => inFragL_mem hq.2 hc⟩
 
 theorem binQ_frag : BinQ Q where
   leaf := by
@@ -462,7 +490,7 @@ theorem binQ_frag : BinQ Q where
     rw [inFrag_inner_ne _ _ _ (by decide)] at h
     simp only [Bool.and_eq_true] at h
     have h1 := h.1
-    simp [Kind.isFragFlow, Kind.isFragElem, Kind.isFragList, Kind.isFragWrap, Kind.isFragItem] at h1
+    simp [Kind.isFragFlow, Kind.isFragElem, Kind.isFragList, Kind.isFragWrap, Kind.isFragItem, Kind.isImportPart] at h1
     exact ⟨h1, inFragL_lex cs h.2, fun c hc => inFragL_mem h.2 hc⟩
 
 /-! ### elements: named, keyed, spread -/
@@ -545,7 +573,7 @@ theorem args_frag (e : Env) (r : Rec) (hr : RecOK r Q) (ctx : Ctx) (hctx : NM ct
     (first | rw [inFrag_inner_ne _ _ _ (by decide)] at hq | rw [inFrag_inner_ne _ _ _ (by assumption)] at hq | skip); simp only [inFrag, Bool.and_eq_true] at hq
     have hch : listChildrenOK .args cs = true := by
       have h1 := hq.1
-      simp [Kind.isFragFlow, Kind.isFragElem, Kind.isFragList, Kind.isFragWrap, Kind.isFragItem] at h1
+      simp [Kind.isFragFlow, Kind.isFragElem, Kind.isFragList, Kind.isFragWrap, Kind.isFragItem, Kind.isImportPart] at h1
       exact h1
     rw [specAll_inner .args cs a (by simp [isVerbatimNode, Kind.isExpr]) (by decide)]
     obtain ⟨sp0, sp1, sp2, _, _, _⟩ := soft_paren e
@@ -691,7 +719,7 @@ theorem paramList_frag (e : Env) (r : Rec) (hr : RecOK r Q) (ctx : Ctx) (k : Kin
   have hch : listChildrenOK k cs = true := by
     have h1 := hq.1
     rcases hk with rfl | rfl <;>
-      (simp [Kind.isFragFlow, Kind.isFragElem, Kind.isFragList, Kind.isFragWrap, Kind.isFragItem] at h1; exact h1)
+      (simp [Kind.isFragFlow, Kind.isFragElem, Kind.isFragList, Kind.isFragWrap, Kind.isFragItem, Kind.isImportPart] at h1; exact h1)
   have hall : ∀ x ∈ cs, inFrag x = true ∧ (isParam x = true ∨ isPassable x = true) := by
     intro x hx
     refine ⟨inFragL_mem hq.2 hx, ?_⟩
@@ -821,7 +849,7 @@ theorem convExpr_frag (e : Env) (r : Rec) (hr : RecOK r Q) (hrM : RecOKM r QM) (
       · -- content block, strong, emphasis: delimiter, markup body, delimiter
         have hch : listChildrenOK k cs = true := by
           have h1 := hq.1
-          cases k <;> simp_all [Kind.isFragFlow, Kind.isFragElem, Kind.isFragList, Kind.isFragWrap, Kind.isFragItem]
+          cases k <;> simp_all [Kind.isFragFlow, Kind.isFragElem, Kind.isFragList, Kind.isFragWrap, Kind.isFragItem, Kind.isImportPart]
         have hv : isVerbatimNode k cs a = false := by cases k <;> simp_all [Kind.isFragWrap, isVerbatimNode]
         have hraw : k ≠ .raw := by intro h; rw [h] at hwrapk; cases hwrapk
         rw [specAll_inner k cs a hv hraw]
@@ -893,9 +921,9 @@ theorem convExpr_frag (e : Env) (r : Rec) (hr : RecOK r Q) (hrM : RecOKM r QM) (
           simpa [specAllL_cons, hs0, hs1, Streams.app_assoc, Env.syn] using (hd.nstTab.grp).enclose (Carries.mkText e.wd .syn "[") (Carries.mkText e.wd .syn "]")
       by_cases hitemk : k.isFragItem = true
       · -- heading, list / enum / term item
-        have hv : isVerbatimNode k cs a = false := by cases k <;> simp_all [Kind.isFragItem, isVerbatimNode]
+        have hv : isVerbatimNode k cs a = false := by cases k <;> simp_all [Kind.isFragItem, Kind.isImportPart, isVerbatimNode]
         have hraw : k ≠ .raw := by intro h; rw [h] at hitemk; cases hitemk
-        cases k <;> simp only [Kind.isFragItem, Bool.false_eq_true] at hitemk
+        cases k <;> simp only [Kind.isFragItem, Kind.isImportPart, Bool.false_eq_true] at hitemk
         · show Post (convHeading e r ctx _) _
           exact flow_construct_carries e ctx _ cs a () _ (headingProducer_ok e r hr) hv hraw hlex hqc hctx
         all_goals
@@ -919,7 +947,7 @@ theorem convExpr_frag (e : Env) (r : Rec) (hr : RecOK r Q) (hrM : RecOKM r QM) (
       · subst hrefk
         have hch : listChildrenOK .ref cs = true := by
           have h1 := hq.1
-          simp [Kind.isFragFlow, Kind.isFragElem, Kind.isFragList, Kind.isFragWrap, Kind.isFragItem] at h1
+          simp [Kind.isFragFlow, Kind.isFragElem, Kind.isFragList, Kind.isFragWrap, Kind.isFragItem, Kind.isImportPart] at h1
           exact h1
         rw [specAll_inner .ref cs a (by simp [isVerbatimNode, hd']) (by decide)]
         show Post (convRef e r ctx _) _
@@ -964,6 +992,53 @@ theorem convExpr_frag (e : Env) (r : Rec) (hr : RecOK r Q) (hrM : RecOKM r QM) (
         · cases m with
           | inner _ _ _ => simp at hch
           | leaf km tm am => cases km <;> simp at hch
+      by_cases himpk : k = .moduleImport
+      · subst himpk
+        have hsh : importShapeB cs = true := by
+          have h1 := hq.1
+          simp [Kind.isFragFlow, Kind.isFragElem, Kind.isFragList, Kind.isFragWrap, Kind.isFragItem, Kind.isImportPart, listChildrenOK] at h1
+          exact h1
+        simp only [importShapeB, Bool.and_eq_true, Bool.or_eq_true, Bool.not_eq_true'] at hsh
+        show Post (convImport e r ctx _) _
+        have hflat : ∀ c ∈ cs, c.kind = .importItems → specAll c = specAllL c.children := by
+          intro c hc hk
+          have hcq := hqc c hc
+          cases c with
+          | leaf k' t' a' =>
+            simp only [ANode.kind] at hk; subst hk
+            simp [Q, inFrag, Kind.isInnerKind] at hcq
+          | inner k' ics ia =>
+            simp only [ANode.kind] at hk; subst hk
+            exact specAll_inner .importItems ics ia
+              (not_verbatim_of_not_expr _ _ _ rfl (by decide) (by decide) (by decide) (by decide)) (by decide)
+        have hflq : ∀ x ∈ importFlattened cs, inFrag x = true := by
+          intro x hx
+          unfold importFlattened at hx
+          simp only at hx
+          obtain ⟨c, hc, hxc⟩ := List.mem_flatMap.mp hx
+          have hcm : c ∈ cs := List.mem_of_mem_drop hc
+          split at hxc
+          · rename_i hk
+            have hcq := hqc c hcm
+            cases c with
+            | leaf k' t' a' => simp [ANode.children] at hxc
+            | inner k' ics ia =>
+              simp only [ANode.kind, beq_iff_eq] at hk; subst hk
+              simp only [Q] at hcq
+              rw [inFrag_inner_ne _ _ _ (by decide)] at hcq
+              simp only [Bool.and_eq_true] at hcq
+              exact inFragL_mem hcq.2 hxc
+          · have : x = c := by simpa using hxc
+            rw [this]; exact hqc c hcm
+        refine convImport_carries e r hr impQ_frag ctx hctx cs a hd' hlex hqc hflat ?_ hsh.2
+        intro x hx
+        have := List.all_eq_true.mp hsh.1 x hx
+        simp only [Bool.or_eq_true] at this
+        refine ⟨inFrag_lex x (hflq x hx), hflq x hx, ?_⟩
+        rcases this with (h | h) | h
+        · exact Or.inl h
+        · exact Or.inr (Or.inl h)
+        · exact Or.inr (Or.inr h)
       by_cases hfak : k = .fieldAccess
       · subst hfak
         have hq0 : inFrag (.inner .fieldAccess cs a) = true := by
@@ -981,7 +1056,7 @@ theorem convExpr_frag (e : Env) (r : Rec) (hr : RecOK r Q) (hrM : RecOKM r QM) (
       · subst hrawk
         have hch : listChildrenOK .raw cs = true := by
           have h1 := hq.1
-          simp [Kind.isFragFlow, Kind.isFragElem, Kind.isFragList, Kind.isFragWrap, Kind.isFragItem] at h1
+          simp [Kind.isFragFlow, Kind.isFragElem, Kind.isFragList, Kind.isFragWrap, Kind.isFragItem, Kind.isImportPart] at h1
           exact h1
         show Post (pure (convRaw e _)) _
         exact Post.pure (convRaw_carries e cs a hd' (by simpa [listChildrenOK] using hch))
@@ -1051,7 +1126,7 @@ theorem convExpr_frag (e : Env) (r : Rec) (hr : RecOK r Q) (hrM : RecOKM r QM) (
         subst hcallk
         have hch : listChildrenOK .funcCall cs = true := by
           have h1 := hq.1
-          simp [Kind.isFragFlow, Kind.isFragElem, Kind.isFragList, Kind.isFragWrap, Kind.isFragItem] at h1
+          simp [Kind.isFragFlow, Kind.isFragElem, Kind.isFragList, Kind.isFragWrap, Kind.isFragItem, Kind.isImportPart] at h1
           exact h1
         simp only [listChildrenOK] at hch
         rcases cs with _ | ⟨callee, _ | ⟨args, _ | ⟨c2, rest⟩⟩⟩ <;> simp only [Bool.false_eq_true] at hch
@@ -1152,7 +1227,7 @@ theorem convExpr_frag (e : Env) (r : Rec) (hr : RecOK r Q) (hrM : RecOKM r QM) (
       · -- list-like
         have hlistk : k.isFragList = true ∧ listChildrenOK k cs = true := by
           have h1 := hq.1
-          cases k <;> simp_all [Kind.isFragFlow, Kind.isFragElem, Kind.isFragList, Kind.isFragWrap, Kind.isFragItem, Kind.isExpr]
+          cases k <;> simp_all [Kind.isFragFlow, Kind.isFragElem, Kind.isFragList, Kind.isFragWrap, Kind.isFragItem, Kind.isImportPart, Kind.isExpr]
         obtain ⟨sp0, sp1, sp2, sp3, sp4, sp5⟩ := soft_paren e
         have hspec : ∀ (hcb : k = .codeBlock → ∀ c ∈ cs, c.kind = .code → c.attrs.disabled = false),
             specAll (.inner k cs a) = specAllL cs := by
@@ -1371,7 +1446,7 @@ theorem convParenthesized_frag (e : Env) (r : Rec) (hr : RecOK r Q) (ctx : Ctx) 
     (first | rw [inFrag_inner_ne _ _ _ (by decide)] at hq | rw [inFrag_inner_ne _ _ _ (by assumption)] at hq | skip); simp only [inFrag, Bool.and_eq_true] at hq
     have hch : listChildrenOK .parenthesized cs = true := by
       have h1 := hq.1
-      simp [Kind.isFragFlow, Kind.isFragElem, Kind.isFragList, Kind.isFragWrap, Kind.isFragItem] at h1
+      simp [Kind.isFragFlow, Kind.isFragElem, Kind.isFragList, Kind.isFragWrap, Kind.isFragItem, Kind.isImportPart] at h1
       exact h1
     simp only [listChildrenOK, Bool.and_eq_true] at hch
     have hall : ∀ x ∈ cs, inFrag x = true ∧ (isPattern x = true ∨ isPassable x = true) := by
@@ -1495,7 +1570,7 @@ theorem convMarkup_frag (e : Env) (r : Rec) (hr : RecOK r Q) (ctx : Ctx) (hctx :
     (first | rw [inFrag_inner_ne _ _ _ (by decide)] at hq | rw [inFrag_inner_ne _ _ _ (by assumption)] at hq | skip); simp only [inFrag, Bool.and_eq_true] at hq
     have hch : listChildrenOK .markup cs = true := by
       have h1 := hq.1
-      simp [Kind.isFragFlow, Kind.isFragElem, Kind.isFragList, Kind.isFragWrap, Kind.isFragItem] at h1
+      simp [Kind.isFragFlow, Kind.isFragElem, Kind.isFragList, Kind.isFragWrap, Kind.isFragItem, Kind.isImportPart] at h1
       exact h1
     rw [specAll_inner .markup cs a (by simp [isVerbatimNode, Kind.isExpr]) (by decide)]
     refine convMarkup_carries e r hr ctx .markup cs a scope (fun x hx => ?_)
